@@ -8,6 +8,7 @@ pipeline (DESIGN.md section 1):
   its working tree -> correspondence -> (search) -> evidence + verdict.
 """
 import fcntl
+import hashlib as hashlib
 import hashlib
 import json
 import os
